@@ -66,10 +66,12 @@ theorem parse_mono {g : G} {f f' : Nat} {p : P} {sk : Sk} {inp : List Nat} {r : 
     | ignore a => simp only [S.parse] at h ⊢; grind (splits := 30)
     | named a => simp only [S.parse] at h ⊢; grind (splits := 30)
     | ref i => simp only [S.parse] at h ⊢; exact ih' h
+    | map m a => simp only [S.parse] at h ⊢; grind (splits := 30)
     | plus a => simp only [S.parse] at h ⊢; exact hs _ _ h
     | sep a b => simp only [S.parse] at h ⊢; exact hs _ _ h
     | list o a b c => simp only [S.parse] at h ⊢; exact hs _ _ h
     | uint m => simp only [S.parse] at h ⊢; exact hs _ _ h
     | int m => simp only [S.parse] at h ⊢; exact hs _ _ h
+    | float => simp only [S.parse] at h ⊢; exact hs _ _ h
 
 end Fcppt.C02
